@@ -36,6 +36,7 @@ KNOWN_DIGESTS = {
     "Element.enforce_required": {"f98018ac0a50"}, "Bool": {"8c0952b1336a"}, "String": {"386d0938afca"}, "NagString": {"678aacaa7227"},
     "OneOf": {"3bf564b86f84"}, "Integer": {"4e5a30164d9c", "fa85d1e51405"}, "Decimal": {"84dd63cd768c", "c92f942cab8e"},
     "ListElement": {"0da847f219d0"}, "utils.tostring_unclosed_elements": {"7836dac1a843", "41b0e5f24a7e"},
+    "DateTime": {"5ad32235b1d2"}, "Time": {"7d21779c68ca"}, "format_datetime": {"8cb9629dc614"},
 }
 IMPORTS = ["Base.Digits", "Gen.ScalarsGen", "Model.PyDecimal", "Model.Scalars", "Model.ScalarsLex", "Model.ScalarsCases"]
 D = decimal.Decimal
@@ -869,7 +870,34 @@ def datetime_clauses(T, rng, rep, fails, n):
             r2 = call(T, conv, "convert", c[1]) if c[0] == "ok" else ("none",)
             if r2[0] != "ok" or r2[1] != r1[1]:
                 fail("%s:canonical-text-reads-differently" % nm, "%s: %r reads %r, written %r, read again %r" % (nm, text, r1[1], c, r2), type=nm, text=text)
-    # None, wrong types on write, bad texts on read
+    # wrong Python types, both directions, also through ListElement, on fresh instances and on instances that have already read a text
+    # (handlers are registered at run time by normalize_to_gmt; a dispatcher shared between DateTime and Time would show here)
+    utc = datetime.timezone.utc
+    adt, atm = datetime.datetime(2020, 1, 2, 3, 4, 5, tzinfo=utc), datetime.time(1, 2, 3, tzinfo=utc)
+    wrong = {"naive datetime": adt.replace(tzinfo=None), "naive time": atm.replace(tzinfo=None), "date": datetime.date(2020, 1, 2), "int": 20200102, "float": 1.5,
+             "bool": True, "Decimal": D("1"), "list": [], "timedelta": datetime.timedelta(hours=1), "tuple": (2020, 1, 2)}
+    matrix = [("DateTime", lambda: T.DateTime(), dict(wrong, **{"aware time": atm}), "20200102030405"),
+              ("Time", lambda: T.Time(), dict(wrong, **{"aware datetime": adt}), "030405"),
+              ("ListElement(DateTime)", lambda: T.ListElement(T.DateTime()), dict(wrong, **{"aware time": atm}), "20200102030405"),
+              ("ListElement(Time)", lambda: T.ListElement(T.Time(required=True)), dict(wrong, **{"aware datetime": adt}), "030405")]
+    for nm, mk, vals, good_text in matrix:
+        for used in (False, True):
+            conv = mk()
+            if used:
+                call(T, conv, "convert", good_text)
+            for label, wv in vals.items():
+                for op in ("convert", "unconvert"):
+                    o = call(T, conv, op, wv)
+                    rep.count((nm, op, label, used), nontrivial=False, kind="%s.%s:wrong-type" % (nm, op))
+                    if o[0] == "ok":
+                        fail("%s.%s:wrong-type-accepted" % (nm, op), "%s.%s(%r) -> %r: a %s is not a value of the type and must be refused" % (nm, op, wv, o[1], label),
+                             type=nm, op=op, value=repr(wv), label=label)
+            for label, wv in (("str", "garbage"), ("str", good_text)):
+                o = call(T, conv, "unconvert", wv)
+                rep.count((nm, "unconvert", wv, used), nontrivial=False, kind="%s.unconvert:wrong-type" % nm)
+                if o[0] == "ok":
+                    fail("%s.unconvert:wrong-type-accepted" % nm, "%s.unconvert(%r) -> %r: a str is not a value of the type" % (nm, wv, o[1]), type=nm, op="unconvert", value=repr(wv), label="str")
+    # None, bad texts on read
     naive = datetime.datetime(2020, 1, 1, 12, 0, 0)
     for nm, cls in (("DateTime", T.DateTime), ("Time", T.Time)):
         for req in (False, True):
@@ -889,11 +917,6 @@ def datetime_clauses(T, rng, rep, fails, n):
                     o = call(T, lconv, op, None)
                     if (o[0] != "ok") != req or (o[0] == "ok" and o[1] is not None):
                         fail("ListElement.%s:not-delegating" % op, "ListElement(%s(required=%r)).%s(None) -> %r" % (nm, req, op, o), type=nm)
-            for wv in ("20200101", 20200101, True, D("1"), nv, naive.date(), Other("list")):
-                o = call(T, conv, "unconvert", wv)
-                rep.count((nm, "unconvert", repr(wv), req), nontrivial=False, kind="%s.unconvert:wrong-type" % nm)
-                if o[0] == "ok":
-                    fail("%s.unconvert:wrong-type-accepted" % nm, "%s.unconvert(%r) -> %r" % (nm, wv, o[1]), type=nm, value=repr(wv))
             bads = ["x", "2020", "2020010", "20201301", "20200132", "20200100", "20200230", "20200101250000", "20200101126000", "20200101120061", "2020010112000a",
                     "20200101120000.12", "20200101120000.123[", "20200101120000.123[5", "abcdefgh", "Y", "12.5"] if nm == "DateTime" else \
                    ["x", "12", "1200", "250000", "126000", "120061", "12000a", "120000.12", "120000.123[", "20200101120000", "Y"]
@@ -947,10 +970,20 @@ def replay(obj):
     if r.get("kind") == "datetime":
         fails = []
         fail = lambda key, what, **kw: fails.append((key, what))
-        if "value" in r and r.get("type") in ("DateTime", "Time", "ListElement(DateTime)", "ListElement(Time)") and r["value"].startswith("datetime."):
+        if "value" in r and not r.get("label") and r.get("type") in ("DateTime", "Time", "ListElement(DateTime)", "ListElement(Time)") and r["value"].startswith("datetime."):
             v = eval(r["value"], {"datetime": datetime})        # the repr of a datetime / time value written by this check
             dt_chain(T, r["type"], dt_conv(T, r["type"]), v, fail)
             print("replay %s round trip of %r: %s" % (r["type"], v, fails or "ok"))
+        elif r.get("label") and r.get("op") in ("convert", "unconvert"):
+            v = eval(r["value"], {"datetime": datetime, "Decimal": D})
+            for used in (False, True):
+                conv = dt_conv(T, r["type"])
+                if used:
+                    call(T, conv, "convert", "030405" if "Time" in r["type"] else "20200102030405")
+                o = call(T, conv, r["op"], v)
+                print("replay %s.%s(%r)%s -> %r" % (r["type"], r["op"], v, " after a text was read" if used else "", o))
+                if o[0] == "ok":
+                    fails.append((obj.get("key"), "%s.%s(%r) -> %r" % (r["type"], r["op"], v, o[1])))
         elif "text" in r and r.get("type") in ("DateTime", "Time"):
             conv = dt_conv(T, r["type"])
             r1 = call(T, conv, "convert", r["text"])
